@@ -710,3 +710,110 @@ Proof.
   apply in_app_or in Ht. pose proof (wf_in _ Hx) as Ix. pose proof (wf_in _ Hy) as Iy. unfold all_in in *.
   rewrite Forall_forall in Ix, Iy. destruct Ht as [Ht|Ht]; [rewrite (Ix t Ht)|rewrite (Iy t Ht), orb_true_r]; reflexivity.
 Qed.
+
+(* ------------------------------------------------------------------------------------------ *)
+(* witnesses: clauses of the statement that are FALSE of the faithful model (each replays on /repo) *)
+Ltac wf_concrete := constructor; cbn;
+  [ repeat split; lia | repeat split; lia | repeat constructor | try discriminate; try reflexivity
+  | reflexivity | eexists; reflexivity | reflexivity | try discriminate; try reflexivity ].
+
+Definition w_tsd (t : list Z) (sup : iset) (c : list Z) : ts Z := mkTs CTsd t sup (mkArr [length t] c) [].
+
+(* np.squeeze on a series of length 1: NumPy returns a 0-d array, the wrapper raises IndexError *)
+Lemma zero_dim_witness :
+  exists (x : ts Z) (f : arr Z -> npres Z unit) (a : arr Z),
+    WF x /\ f (dat x) = NArr a /\ wf_arr a /\ array_function x FPlain f = OErr EIndex.
+Proof.
+  exists (w_tsd [0] [(-1, 1)] [5]), (fun a => NArr (mkArr [] (cells a))), (mkArr [] [5]).
+  split; [wf_concrete|]. repeat split.
+Qed.
+
+(* np.array_split(x, 2) on 3 samples: NumPy divides the values 2 + 1, the index is divided with np.split -> ValueError *)
+Lemma array_split_uneven_witness :
+  exists x : ts Z, WF x /\ np_div_points false (inl 2%nat) (length (t_of x)) = Some [0; 2; 3]%nat
+                   /\ @split_tsd Z unit x true (inl 2%nat) = inr EValueSplit.
+Proof. exists (w_tsd [0; 10; 20] [(-1, 21)] [5; 6; 7]). split; [wf_concrete|]. split; reflexivity. Qed.
+
+(* np.hsplit of a Tsd splits along time, but every piece is matched against the WHOLE index: raw arrays come back *)
+Lemma hsplit_1d_witness :
+  exists (x : ts Z) (p1 p2 : arr Z),
+    WF x /\ cells p1 ++ cells p2 = cells (dat x) /\ @split_other Z unit x [p1; p2] = [OArr p1; OArr p2].
+Proof.
+  exists (w_tsd [0; 10; 20] [(-1, 21)] [5; 6; 7]), (mkArr [1%nat] [5]), (mkArr [2%nat] [6; 7]).
+  split; [wf_concrete|]. split; reflexivity.
+Qed.
+
+(* np.concatenate([x, e]) with e empty: timestamps strictly increase, yet the "other axis" branch is taken and
+   np.allclose on index arrays of lengths 2 and 0 raises ValueError *)
+Lemma concat_empty_operand_witness :
+  exists x e : ts Z, WF x /\ WF e /\ strictly_incb (t_of x ++ t_of e) = true
+    /\ @concat_tsd Z unit [inl x; inl e] (cat0 [dat x; dat e]) = OErr EValueBroadcast.
+Proof.
+  exists (w_tsd [0; 10] [(-1, 11)] [5; 6]), (w_tsd [] [] []).
+  split; [wf_concrete|]. split; [wf_concrete|]. split; reflexivity.
+Qed.
+
+(* np.vstack of Tsd operands: NumPy's result is 2-d, the wrapper builds a Tsd (the operands' class) from it:
+   AssertionError (dimension) for two operands on the same index, AssertionError (length) for three operands
+   in sequence (3 > 2 rows: taken for a concatenation along time) *)
+Lemma concat_rank_witness :
+  exists (x y : ts Z) (outp : arr Z), WF x /\ WF y /\ shape outp = [2; 2]%nat /\ wf_arr outp
+    /\ @concat_tsd Z unit [inl x; inl y] outp = OErr EAssertDim
+    /\ exists (y' z' : ts Z) (outp' : arr Z), WF y' /\ WF z' /\ shape outp' = [3; 2]%nat /\ wf_arr outp'
+         /\ strictly_incb (t_of x ++ t_of y' ++ t_of z') = true
+         /\ @concat_tsd Z unit [inl x; inl y'; inl z'] outp' = OErr EAssertLen.
+Proof.
+  exists (w_tsd [0; 10] [(-1, 11)] [5; 6]), (w_tsd [0; 10] [(-1, 11)] [7; 8]), (mkArr [2; 2]%nat [5; 6; 7; 8]).
+  split; [wf_concrete|]. split; [wf_concrete|]. split; [reflexivity|]. split; [reflexivity|]. split; [reflexivity|].
+  exists (w_tsd [20; 30] [(19, 31)] [7; 8]), (w_tsd [40; 50] [(39, 51)] [9; 10]), (mkArr [3; 2]%nat [5; 6; 7; 8; 9; 10]).
+  split; [wf_concrete|]. split; [wf_concrete|]. split; [reflexivity|]. split; [reflexivity|]. split; [reflexivity|].
+  vm_compute. reflexivity.
+Qed.
+
+(* Tsd + TsdFrame (length 1): the Tsd's wrapper re-wraps last, the TsdFrame's column labels are lost *)
+Lemma mixed_columns_witness :
+  exists (xo xi : ts Z) (g : arr Z -> arr Z -> npres Z unit) (r : ts Z),
+    WF xo /\ WF xi /\ kls xi = CFrame /\ mixed_ufunc xo xi g = OTs r /\ kls r = CFrame
+    /\ ncols (dat r) = ncols (dat xi) /\ cols xi = [10; 11] /\ cols r = [0; 1].
+Proof.
+  exists (w_tsd [0] [(-1, 1)] [5]), (mkTs CFrame [0] [(-1, 1)] (mkArr [1; 2]%nat [1; 2]) [10; 11]),
+         (fun a b => NArr (mkArr (shape b) (map (Z.add (hd 0 (cells a))) (cells b)))).
+  eexists. split; [wf_concrete|]. split; [wf_concrete|]. split; [reflexivity|]. split; [vm_compute; reflexivity|].
+  repeat split.
+Qed.
+
+(* ------------------------------------------------------------------------------------------ *)
+(* split along time, in the two call forms *)
+Lemma div_points_even b N n : (0 < N)%nat -> (n mod N = 0)%nat ->
+  np_div_points b (inl N) n = np_div_points true (inl N) n.
+Proof.
+  intros HN Hm. unfold np_div_points. destruct (N =? 0)%nat; [reflexivity|]. rewrite Hm. simpl.
+  rewrite !andb_false_r. reflexivity.
+Qed.
+
+Theorem split_sections_partition {V W} (x : ts V) (array_split : bool) (N : nat) :
+  WF x -> (0 < N)%nat -> (length (t_of x) mod N = 0)%nat ->
+  exists pts rs, np_div_points true (inl N) (length (t_of x)) = Some (0%nat :: pts)
+    /\ @split_tsd V W x array_split (inl N) = inl (map OTs rs)
+    /\ Forall2 (piece_ok x) (bounds (0%nat :: pts)) rs
+    /\ concat (map t_of rs) = t_of x
+    /\ concat (map (fun r => cells (dat r)) rs) = cells (dat x)
+    /\ concat (map (fun r => combine (t_of r) (rows (dat r))) rs) = combine (t_of x) (rows (dat x)).
+Proof.
+  intros Hx HN Hm. destruct (div_points_sections false N _ HN (or_intror Hm)) as (pts & E & Hnd & Hl). cbn [negb] in E.
+  destruct (split_partition (W := W) x array_split (inl N) pts Hx) as (rs & H); try assumption.
+  - rewrite (div_points_even _ N _ HN Hm). exact E.
+  - exists pts, rs. split; [exact E|exact H].
+Qed.
+
+Theorem split_indices_partition {V W} (x : ts V) (array_split : bool) (ix : list nat) :
+  WF x -> nd_le (length (t_of x)) 0 ix ->
+  exists rs, @split_tsd V W x array_split (inr ix) = inl (map OTs rs)
+    /\ Forall2 (piece_ok x) (bounds (0%nat :: ix ++ [length (t_of x)])) rs
+    /\ concat (map t_of rs) = t_of x
+    /\ concat (map (fun r => cells (dat r)) rs) = cells (dat x)
+    /\ concat (map (fun r => combine (t_of r) (rows (dat r))) rs) = combine (t_of x) (rows (dat x)).
+Proof.
+  intros Hx Hix. destruct (div_points_indices true ix _ Hix) as (E & Hnd & Hl).
+  apply (split_partition (W := W) x array_split (inr ix) (ix ++ [length (t_of x)]) Hx); try assumption; try reflexivity.
+Qed.
